@@ -7,7 +7,7 @@ import random
 from multiprocessing import Pool
 
 from . import toy
-from .core import NCPU
+from .core import NCPU, limited
 
 # ----------------------------------------------------------------------------- catalogue
 # (name, p, d, raw modulus_coeffs as handed to py_ecc, exhaustive-binary?, tier)
@@ -105,7 +105,7 @@ def exponents(f, rng, tier):
 # ----------------------------------------------------------------------------- row production
 def _safe(fn):
     try:
-        return fn()
+        return limited(fn, 120)
     except RecursionError:
         return "EXC:RecursionError"
     except Exception as e:  # noqa: BLE001 -- any exception is recorded as the observed value
